@@ -308,7 +308,9 @@ func faultedStreams(base []byte, rng *splitmix, maxExhaustive int, samples int, 
 		nl := "\n"
 		var b []byte
 		kind := ""
-		switch rng.intn(6) {
+		switch rng.intn(8) {
+		case 6, 7:
+			kind, b = "file_tags_first", append([]byte("#version:2 #draft"+nl+"#other"+nl), base...)
 		case 0:
 			kind, b = "empty_body_node", append(append([]byte{}, base...), []byte(nl+"title: Zz"+nl+"---"+nl+"===")...)
 		case 1:
